@@ -55,18 +55,15 @@ theorem shape_enterLit (l : Loc) (h : LocInv l) :
 
 theorem shape_leaveLit (l : Loc) (d : Nat) (f : Frame) (rest : List Frame) (h : LocInv l)
     (hd : l.frames.drop d = f :: rest) :
-    f.c ≤ l.lOff ∧ (stepLoc l (.leaveLit d)).1.lOff = l.lOff - f.c ∧ (stepLoc l (.leaveLit d)).1.cur = f.c := by
+    f.lo + f.c ≤ l.lOff ∧ (stepLoc l (.leaveLit d)).1.lOff = f.lo ∧ (stepLoc l (.leaveLit d)).1.cur = f.c := by
   have hlt := h.lOff_le_tOff
   have h1 := h.curMax; have h2 := h.maxN; have h3 := h.tFit; have h4 := h.sizes
-  have h5 := h.sc; have h6 := h.sm; have h7 := h.slack
-  obtain ⟨a, b, e1, e2, hab⟩ := sum_drop d l.frames h.fr
-  rw [hd] at e1 e2
-  simp only [sumC, sumM] at e1 e2
-  have hrest : ∀ g ∈ rest, g.c ≤ g.m := fun g hg =>
-    h.fr g (List.mem_of_mem_drop (by rw [hd]; exact List.mem_cons_of_mem _ hg))
-  have hcm := sumC_le_sumM rest hrest
-  have hc1 : f.c ≤ l.lOff ∧ f.m ≤ l.tOff := by omega
-  have hc2 : l.lOff - f.c + f.c ≤ l.lsize := by omega
+  have hch := chain_drop d l.frames h.chain
+  rw [hd] at hch
+  simp only [Chain] at hch
+  obtain ⟨c1, c2, c3, c4, c5, c6, crest⟩ := hch
+  have hc1 : f.lo + f.c ≤ l.lOff ∧ l.lOff ≤ l.lsize := by omega
+  have hc2 : f.lo + f.c ≤ l.lsize := by omega
   simp only [stepLoc, h.notBad, Bool.false_eq_true, if_false, hd, hc1, and_self, if_true, hc2]
 
 theorem shape_leaveLit_nil (l : Loc) (d : Nat) (h : LocInv l) (hd : l.frames.drop d = []) :
@@ -134,9 +131,9 @@ theorem stepLI_inv (p : Loc × Ids) (e : Ev) (h : LIInv p) : LIInv (stepLI p e) 
     | cons f rest =>
       have hsh := shape_leaveLit l d f rest hL hd
       simp only [stepIds, hb, hb', hsb, Bool.false_eq_true, or_self, if_false, hd]
-      have h1 := popMany_inv l.cur s hI (by omega)
-      have h2 := reactivate_inv (popMany l.cur s) (stepLoc l (.leaveLit d)).1.lOff (stepLoc l (.leaveLit d)).1.cur h1.1
-        (by rw [h1.2, hsh.2.2]; omega)
+      have h1 := popMany_inv (l.lOff + l.cur - (f.lo + f.c)) s hI (by omega)
+      have h2 := reactivate_inv (popMany (l.lOff + l.cur - (f.lo + f.c)) s) (stepLoc l (.leaveLit d)).1.lOff
+        (stepLoc l (.leaveLit d)).1.cur h1.1 (by rw [h1.2, hsh.2.2]; omega)
       exact ⟨h2.1, by rw [h2.2, h1.2, hsh.2.1, hsh.2.2]; omega⟩
   | lexEnd =>
     have hsh : (stepLoc l .lexEnd).1 = l := by simp only [stepLoc, hb, Bool.false_eq_true, if_false]
